@@ -1140,7 +1140,7 @@ func run(c Sx) Result {
 		}
 	}
 	counts := []int{1, b.workers}
-	if nmut >= 60 { // thorough
+	if nmut >= 48 { // thorough
 		counts = nil
 		for w := 1; w <= 16; w++ {
 			counts = append(counts, w)
@@ -1150,10 +1150,12 @@ func run(c Sx) Result {
 		counts = append(counts, r.Range(2, 16), r.Range(2, 16))
 	}
 	var parObs Sx = L()
+	captured := false
 	for ci, w := range counts {
 		par := process(bc, block, true, w, ci != 0)
-		if w == b.workers && ci == 1 {
+		if w == b.workers && !captured { // the observation compared with the model
 			parObs = par.obs(b.pre)
+			captured = true
 		}
 		if (par.err == nil) != (seq.err == nil) {
 			fail("workers=%d: parallel err=%v sequential err=%v", w, par.err, seq.err)
@@ -1252,9 +1254,9 @@ func run(c Sx) Result {
 func gen(r *Rng, tier string, emit func(Sx)) {
 	world()
 	r = NewRng(r.U64())
-	ncases, nmut := 18, 32
+	ncases, nmut := 12, 32
 	if tier == "thorough" {
-		ncases, nmut = 150, 64
+		ncases, nmut = 100, 48
 	}
 	for i := 0; i < ncases; i++ {
 		seed := r.U64() >> 1
@@ -1271,7 +1273,7 @@ func main() {
 		ID: "c33",
 		Rule: "random Amsterdam blocks on a fixed genesis (5 senders, contracts with read-write storage conflicts, " +
 			"balance readers, create+selfdestruct factory, top-level creates, transfers to the coinbase and to fresh " +
-			"accounts, withdrawals), 0-9 txs; per block >= 32 mutated access lists (64 thorough); non-trivial: >= 2 txs, " +
+			"accounts, withdrawals), 0-9 txs; per block 32 mutated access lists (48 thorough); non-trivial: >= 2 txs, " +
 			">= 20 rejected mutations, >= 1 mutation that changes a view a transaction reads",
 		Gen:         gen,
 		Run:         run,
